@@ -545,9 +545,15 @@ func (p *Printer) node(n *Node, indent int) {
 		p.feat("render")
 		if n.Unescaped {
 			p.feat("render.unescaped-spelling")
-			p.w(tabs + "!= @render ")
+			p.w(tabs + "!= @render")
 		} else {
-			p.w(tabs + "= @render ")
+			p.w(tabs + "= @render")
+		}
+		if n.Pad == "\t" {
+			p.feat("render.tab-after-command")
+			p.w("\t")
+		} else {
+			p.w(" ")
 		}
 		p.frag("render", n.Callee)
 		p.w("\n")
@@ -561,9 +567,12 @@ func (p *Printer) node(n *Node, indent int) {
 		p.feat("children")
 		if n.Unescaped {
 			p.feat("children.unescaped-spelling")
-			p.w(tabs + "!= @children\n")
+			p.w(tabs + "!= @children" + n.Pad + "\n")
 		} else {
-			p.w(tabs + "= @children\n")
+			p.w(tabs + "= @children" + n.Pad + "\n")
+		}
+		if n.Pad != "" {
+			p.feat("children.trailing-" + map[string]string{"\t": "tab", " ": "blank", "()": "parentheses"}[n.Pad])
 		}
 	case KBlank:
 		p.feat("blank-indented-line")
